@@ -1514,9 +1514,7 @@ impl World {
             return;
         }
         let m = self.reps[r].m.as_ref().unwrap();
-        if m.has_staging() {
-            return;
-        }
+        // (with anything staged - a revision or only an object body - time travel must refuse: see below)
         let (anchors, expect) = self.reps[r].heads_log[pick % self.reps[r].heads_log.len()].clone();
         if anchors.is_empty() {
             return;
@@ -1527,13 +1525,14 @@ impl World {
         let set: BTreeSet<DeltaId> = anchors.iter().map(|a| DeltaId::from(a).unwrap()).collect();
         let mut fails: Vec<(&str, String)> = vec![];
         if any_staged(m) {
-            // object bodies staged without a staged revision: time travel must refuse and leave the replica alone
+            // revisions staged, or object bodies staged without a staged revision: time travel must refuse and
+            // leave the replica alone
             let before = obs_full(m);
             let tt = m.reload_until(&set);
             self.emit("until", r, if tt.is_ok() { "ok" } else { "err" }, json!({"anchors": anchors}));
             let changed = obs_full(self.reps[r].m.as_ref().unwrap()) != before;
             if tt.is_ok() {
-                self.fail("C15", "reload_until ran although object bodies were staged".into());
+                self.fail("C15", "reload_until ran although changes were staged".into());
             }
             if changed {
                 self.fail("C15", "a refused reload_until changed the replica".into());
